@@ -280,9 +280,9 @@ class FlexWindow(Strategy):
                         if b.soc < 0 + self.EPS:
                             # already discharged
                             break
-                    total_power = (0 if total_power < b.min_charging_power else total_power)
-                    if total_power > 0:
-                        p = total_power / len(sim_batteries)
+                    bat_power = (0 if total_power < b.min_charging_power else total_power)
+                    if bat_power > 0:
+                        p = bat_power / len(sim_batteries)
                         if cur_window:
                             b.load(self.interval, max_power=p)["avg_power"]
                         else:
